@@ -2,6 +2,7 @@ import MJ.Proofs.Fold
 import MJ.Proofs.FoldTables
 import MJ.Proofs.FoldPrimsLawful
 import MJ.Proofs.FoldStmt
+import MJ.Proofs.FoldCode
 /-!
 # C04 — compile-time evaluation is transparent: literals behave like variables
 
@@ -666,6 +667,63 @@ theorem concrete_kwargs_last_wins (k : String) (v : V) (m : List (String × V)) 
 
 example : (Conc.kwInsert "a" (.int 2) [("a", .int 1)]).lookup "a" = some (.int 2) :=
   concrete_kwargs_last_wins _ _ _
+
+/-! ## the instruction stream of `compile_expr` (`MJ/Model/FoldCode.lean`)
+
+`codeC e` is the list of instructions the code generator emits for `e` (compared with the real stream of
+every dumped hoisting variant on every run: instruction names, operands, relative jump targets, argument
+counts); `run` executes it on a value stack with the VM's handlers.  For the whole call-free expression
+language (`Expr.Core`: constants, variables, lists, tuples, maps, `not`, `-`, every binary operator incl.
+the jumps of `and`/`or`, comparison chains with `CompareAndPreserve` and their cleanup code, attribute
+and item access, slices, conditional expressions) running the code pushes exactly the value of the
+unfolded run-time semantics and fails exactly when it fails - whatever literals were folded.  A code
+generator rewrite of a NON-constant expression (a peephole) therefore either changes the stream (the
+correspondence breaks) or has to be added to `codeC`, where this theorem has to be proved again. -/
+
+theorem compile_transparent (P : Prims) (hP : P.Lawful) (m : Mode) (ρ : Env) (e : Expr) (hw : e.WF) (hc : e.Core)
+    (rest : List Instr) (st : List V) :
+    run P m ρ (codeC P e ++ rest) 0 st =
+      match evalRt P m ρ e with
+      | .ok v => run P m ρ rest 0 (v :: st)
+      | .error err => .error err := by
+  rw [← evalC_eq_evalRt' m ρ hP e hw]
+  exact run_codeC P m ρ hP.isTrue_bool e hc rest st
+
+/-- the whole expression on an empty stack: one value, or the error of the run-time semantics -/
+theorem compile_transparent_top (P : Prims) (hP : P.Lawful) (m : Mode) (ρ : Env) (e : Expr) (hw : e.WF) (hc : e.Core) :
+    run P m ρ (codeC P e) 0 [] =
+      match evalRt P m ρ e with
+      | .ok v => .ok [v]
+      | .error err => .error err := by
+  have := compile_transparent P hP m ρ e hw hc [] []
+  simp only [List.append_nil] at this
+  rw [this]
+  cases evalRt P m ρ e <;> simp [run]
+
+/-- `not (v0 >= 0)` with `v0 = 0`: a chain inside, jumps, a conditional - a non-trivial member of `Expr.Core` -/
+def e_core : Expr :=
+  .ifExpr (.not (.bin .ge (.var "v0") (.const (.int 0))))
+    (.const (.int 7))
+    (.some (.bin .and (.cmp (.var "v0") (.cons .le (.var "v1") (.cons .lt (.const (.int 2)) .nil))) (.var "v1")))
+
+example : e_core.WF ∧ e_core.Core ∧ (codeC P0 e_core).length = 18 ∧
+    run P0 .strict ρ0 (codeC P0 e_core) 0 [] = .ok [.int 1] := by
+  refine ⟨by simp [e_core, Expr.WF, OptExpr.WF, Chain.WF], by simp [e_core, Expr.Core, OptExpr.Core, Chain.Core], by rfl, by rfl⟩
+
+/-- The seeded peephole (`not (a >= b)` compiled to `a; b; Lte`) is NOT transparent in this model: at equal
+    operands the rewritten stream computes `true`, the run-time semantics (and the folder) `false`. -/
+theorem negated_ge_peephole_is_not_transparent :
+    ∃ (P : Prims), P.Lawful ∧ ∃ (m : Mode) (ρ : Env) (a b : Expr),
+      (Expr.not (.bin .ge a b)).WF ∧ (Expr.not (.bin .ge a b)).Core ∧
+      run P m ρ (codeC P a ++ codeC P b ++ [.bin .le]) 0 [] ≠
+        (match evalRt P m ρ (.not (.bin .ge a b)) with
+         | .ok v => .ok [v]
+         | .error err => .error err) := by
+  refine ⟨P0, P0_lawful, .lenient, ρ0, .var "v0", .const (.int 0), by simp [Expr.WF], by simp [Expr.Core], ?_⟩
+  have h1 : run P0 .lenient ρ0 (codeC P0 (.var "v0") ++ codeC P0 (.const (.int 0)) ++ [.bin .le]) 0 [] = .ok [.bool true] := by rfl
+  have h2 : evalRt P0 .lenient ρ0 (.not (.bin .ge (.var "v0") (.const (.int 0)))) = .ok (.bool false) := by rfl
+  rw [h1, h2]
+  simp
 
 /-! ## the defect that was fixed (`fix:` commit 25af7fa)
 
